@@ -83,6 +83,11 @@ def annotate(rj):
                 if hit:
                     at = hit[0]
                     break
+    elif rj.get("why") in ("succ-guards", "succ-guard-width"):
+        # successors come from the instruction that ends the block
+        hit = [l for l in labs if l.get("mn") != "(undecodable)"]
+        if hit:
+            at = hit[-1]
     elif isinstance(e.get("culprit"), dict) and e["culprit"].get("i", -1) >= 0:
         at = {k: e["culprit"][k] for k in ("mn", "ops", "form") if k in e["culprit"]}
     e["at"] = at or {"mn": "?", "ops": "", "form": ""}
